@@ -174,7 +174,7 @@ Qed.
 Lemma good_item al crlf it T : item_ok al it = true -> good_lines T ->
   good_lines (print_item (eol_of crlf) it ++ T).
 Proof.
-  intros Hok HT. destruct it as [num xref lines|k v|k v| |po sep syms rows]; cbn [print_item].
+  intros Hok HT. destruct it as [num xref lines|k v|k v| |t ts|d m y c au|po sep syms rows]; cbn [print_item].
   - cbn [item_ok] in Hok. apply andb_true_iff in Hok. destruct Hok as [Hok Hl].
     apply andb_true_iff in Hok. destruct Hok as [Hn Hx].
     assert (E : (["R"; "N"; " "; " "; "["] ++ num ++ ["]"] ++ print_xref xref ++ eol_of crlf ++
@@ -204,6 +204,32 @@ Proof.
     cbn [app]. rewrite <- !app_assoc.
     apply good_tagged; try exact HT; try (destruct k; reflexivity); assumption.
   - apply good_xx. exact HT.
+  - cbn [item_ok] in Hok. revert Hok. generalize (t :: ts). intros l. induction l as [|x l IH]; intros Hok; [exact HT|].
+    cbn [forallb] in Hok. apply andb_true_iff in Hok. destruct Hok as [Hx Hok].
+    apply andb_true_iff in Hx. destruct Hx as [H1 H2].
+    cbn [flat_map]. rewrite <- app_assoc. cbn [app]. rewrite <- app_assoc.
+    apply good_tagged; try reflexivity; try assumption. apply IH. exact Hok.
+  - cbn [item_ok] in Hok.
+    apply andb_true_iff in Hok. destruct Hok as [Hok Hdot]. apply andb_true_iff in Hok. destruct Hok as [Hok Hu].
+    apply andb_true_iff in Hok. destruct Hok as [Hok Hn]. apply andb_true_iff in Hok. destruct Hok as [Hok Hy].
+    apply andb_true_iff in Hok. destruct Hok as [Hd Hm].
+    set (kind := if c then ["c"; "r"; "e"; "a"; "t"; "e"; "d"] else ["u"; "p"; "d"; "a"; "t"; "e"; "d"]).
+    assert (E : (["D"; "T"; " "; " "] ++ d ++ ["."] ++ m ++ ["."] ++ y ++ [" "; "("] ++ kind ++
+                 [")"; ";"; " "] ++ au ++ ["."] ++ eol_of crlf) ++ T
+              = "D" :: "T" :: ([" "; " "] ++ d ++ ["."] ++ m ++ ["."] ++ y ++ [" "; "("] ++ kind ++
+                [")"; ";"; " "] ++ au ++ ["."]) ++ eol_of crlf ++ T).
+    { rewrite <- !app_assoc. reflexivity. }
+    rewrite E.
+    assert (Kp : forallb plain kind = true) by (subst kind; destruct c; reflexivity).
+    destruct (plain_text kind Kp) as [K1 K2].
+    assert (Dp : forall mx z, num_ok mx z = true -> no_nl z = true /\ utf8_valid z = true).
+    { intros mx z Hz. apply plain_text. unfold num_ok, uint in Hz.
+      destruct (uint_loop mx z 0%N true) as [v r| | | |] eqn:Ez; try discriminate. destruct r; [|discriminate].
+      apply (forallb_impl is_digit plain z digit_plain). exact (uint_loop_digits _ _ _ _ _ Ez). }
+    destruct (Dp _ _ Hd) as [D1 D2]. destruct (Dp _ _ Hm) as [M1 M2]. destruct (Dp _ _ Hy) as [Y1 Y2].
+    apply good_tagged; try reflexivity; try exact HT.
+    + rewrite !no_nl_app, D1, M1, Y1, K1, Hn. reflexivity.
+    + repeat (apply utf8_valid_app; [first [reflexivity|assumption]|]). reflexivity.
   - destruct (item_ok_matrix al po sep syms rows Hok) as (c & cs & idx & r0 & rows' & -> & Ei & -> & Hsep & _ & Hrows).
     destruct (sep_ok_parts sep Hsep) as (_ & Hbl & _).
     fold (sym_text sep (c :: cs)). rewrite <- !app_assoc.
@@ -219,8 +245,9 @@ Qed.
 
 Lemma good_body al crlf (p : prec) : prec_ok al p = true -> good_lines (print_body (eol_of crlf) p).
 Proof.
+  unfold prec_ok. intros H. apply andb_true_iff in H. destruct H as [H _]. revert H.
   induction p as [|it p IH]; intros H; [apply gl_nil|].
-  cbn [prec_ok forallb] in H. apply andb_true_iff in H. destruct H as [H1 H2].
+  cbn [forallb] in H. apply andb_true_iff in H. destruct H as [H1 H2].
   unfold print_body. cbn [flat_map]. apply (good_item al); [exact H1|apply IH; exact H2].
 Qed.
 
@@ -490,7 +517,8 @@ End Records.
 Lemma starts_vv_body eol (p : prec) tl : starts_with ["V"; "V"] (print_body eol p ++ "/" :: "/" :: tl) = false.
 Proof.
   destruct p as [|it p]; [reflexivity|]. unfold print_body. cbn [flat_map]. rewrite <- app_assoc.
-  destruct it as [num xref lines|k v|k v| |po sep syms rows]; cbn [print_item app xx_line]; try (destruct k); reflexivity.
+  destruct it as [num xref lines|k v|k v| |t ts|d m y c au|po sep syms rows];
+    cbn [print_item app xx_line flat_map]; try (destruct k); reflexivity.
 Qed.
 
 Lemma vv_ok_parts v : vv_ok (Some v) = true -> no_nl v = true /\ utf8_valid v = true.
